@@ -22,6 +22,7 @@ func (r *Run) lockOf(p *Value) *lockState {
 }
 
 func (r *Run) mutexLock(p *Value) {
+	r.sched.preemptPoint()
 	l := r.lockOf(p)
 	for l.writer || l.readers > 0 {
 		r.sched.block("mutex Lock")
@@ -60,6 +61,7 @@ func (r *Run) mutexUnlock(p *Value) {
 }
 
 func (r *Run) mutexRLock(p *Value) {
+	r.sched.preemptPoint()
 	l := r.lockOf(p)
 	for l.writer {
 		r.sched.block("mutex RLock")
